@@ -1,5 +1,5 @@
 #!/usr/bin/env python3
-"""usage: tools/integrate.py <name>  -- merge a builder workspace /tmp/wk/<name> into /verif and /repo:
+"""usage: tools/integrate.py <name> [upto-commit]  -- merge a builder workspace /tmp/wk/<name> into /verif and /repo:
    new files are copied, append-only shared files are merged line-wise, main.rs is patched, DESIGN.md diffs are
    saved for manual merging, repo commits of branch wk-<name> are cherry-picked (fix:/verif hook: only)."""
 import sys, os, subprocess, shutil
@@ -31,7 +31,8 @@ for l in st:
         print("patch %s: rc=%d %s" % (path, p.returncode, p.stdout.decode().strip().replace("\n", " | ")[:300]))
 # repo commits
 remap = []
-log = sh("git -C /repo log --reverse --format='%%H %%s' main..wk-%s" % name).strip().split("\n")
+upto = sys.argv[2] if len(sys.argv) > 2 else "wk-" + name
+log = sh("git -C /repo log --reverse --format='%%H %%s' main..%s" % upto).strip().split("\n")
 for l in log:
     if not l.strip(): continue
     h, subj = l.split(" ", 1)
